@@ -668,4 +668,753 @@ theorem inv_init (cfg : Cfg) : Inv (init cfg) {} where
   stages := trivial
   coh := by intro hf; cases hf
 
+/-! ## flush discipline: batches, generations, at most one flush function running -/
+
+def bufEq (a b : Buf) : Prop := ∀ k, a.get k = b.get k
+
+def allRel {α β} (R : α → β → Prop) : List α → List β → Prop
+  | [], [] => True
+  | a :: as, b :: bs => R a b ∧ allRel R as bs
+  | _, _ => False
+
+theorem allRel_nil_left {α β} {R : α → β → Prop} {bs : List β} (h : allRel R [] bs) : bs = [] := by
+  cases bs with
+  | nil => rfl
+  | cons _ _ => exact h.elim
+
+theorem allRel_tail {α β} {R : α → β → Prop} {as : List α} {bs : List β} (h : allRel R as bs) :
+    allRel R as.tail bs.tail := by
+  cases as with
+  | nil => rw [allRel_nil_left h]; trivial
+  | cons a as =>
+    cases bs with
+    | nil => exact h.elim
+    | cons b bs => exact h.2
+
+/-- n, n-1, …, 1 -/
+def down : Nat → List Nat
+  | 0 => []
+  | n + 1 => (n + 1) :: down n
+
+structure Inv2 (s : PState) (sp : Spec) : Prop where
+  mbufEq : bufEq s.mbuf sp.pending
+  stagesEq : allRel bufEq s.stages sp.pendSaved
+  histEq : allRel bufEq (s.hist.map (·.2)) sp.handed
+  gens : s.hist.map (·.1) = down s.gen
+  active : s.active = if s.running then [s.gen] else []
+  runFl : s.running = true → s.flushing.isSome
+  errFl : s.errCh.isSome → s.flushing.isSome ∧ s.running = false
+
+theorem start_cases (s : PState) :
+    (start s).1.ttl = s.ttl ∧
+    (((start s).1.running = true ∧ (start s).1.errCh = none ∧ (start s).1.active = (s.gen + 1) :: s.active) ∨
+     ((start s).1.running = false ∧ (start s).1.errCh.isSome ∧ (start s).1.active = s.active)) ∧
+    (s.cfg.layer = true → s.ttl = .closed → (start s).1.running = false ∧ (start s).1.errCh = some .err) := by
+  unfold start
+  by_cases h1 : s.cfg.layer = true
+  · by_cases h2 : s.ttl = .closed
+    · simp [h1, h2]
+    · by_cases h3 : s.mbuf.isEmpty = true
+      · simp [h1, h2, h3]
+      · simp [h1, h2, h3]
+  · simp [h1]
+
+theorem inv2_start {s : PState} {sp : Spec} (h : Inv2 s sp) (hr : s.running = false) :
+    Inv2 (start s).1 { sp with handed := sp.pending :: sp.handed, pending := [] } := by
+  obtain ⟨hf, hm, hs, _, _, _, _, _, hg, hh, _, _⟩ := start_fields s
+  obtain ⟨_, hc, _⟩ := start_cases s
+  have hact : s.active = [] := by have := h.active; simpa [hr] using this
+  refine ⟨?_, ?_, ?_, ?_, ?_, ?_, ?_⟩
+  · intro k; rw [hm]; try rfl
+  · rw [hs]; exact h.stagesEq
+  · rw [hh]; exact ⟨h.mbufEq, h.histEq⟩
+  · rw [hh, hg]; simp only [List.map_cons, down]; rw [h.gens]
+  · rcases hc with ⟨h1, _, h3⟩ | ⟨h1, _, h3⟩
+    · rw [h3, h1, hg, hact]; try rfl
+    · rw [h3, h1, hact]; try rfl
+  · intro _; rw [hf]; rfl
+  · intro he
+    rcases hc with ⟨_, h2, _⟩ | ⟨h1, _, _⟩
+    · rw [h2] at he; cases he
+    · exact ⟨by rw [hf]; rfl, h1⟩
+
+theorem complete_active {s : PState} {f : Buf} (c : Completion) (hf : s.flushing = some f) :
+    (complete s c).active = s.active.filter (· != s.gen) := by
+  unfold complete; simp only [hf]
+
+theorem inv2_complete {s : PState} {sp : Spec} (c : Completion) (h : Inv2 s sp) (hr : s.running = true) :
+    Inv2 (complete s c) sp := by
+  have hfs := h.runFl hr
+  cases hf : s.flushing with
+  | none => simp [hf] at hfs
+  | some f =>
+    obtain ⟨h1, h2, _⟩ := complete_of_flushing c hf
+    refine ⟨?_, ?_, ?_, ?_, ?_, ?_, ?_⟩
+    · rw [complete_mbuf]; exact h.mbufEq
+    · rw [complete_stages]; exact h.stagesEq
+    · rw [complete_hist]; exact h.histEq
+    · rw [complete_hist, complete_gen]; exact h.gens
+    · rw [complete_active c hf, h1, h.active, hr]; simp
+    · intro hr'; rw [h1] at hr'; cases hr'
+    · intro _; exact ⟨by rw [complete_flushing, hf]; rfl, h1⟩
+
+theorem inv2_await {s : PState} {sp : Spec} (c : Completion) (h : Inv2 s sp) : Inv2 (await s c) sp := by
+  unfold await
+  by_cases hr : s.running = true
+  · simp only [hr, if_true]; exact inv2_complete c h hr
+  · simp only [hr]; exact h
+
+theorem await_not_running {s : PState} (c : Completion) (hf : s.flushing.isSome) : (await s c).running = false := by
+  unfold await
+  by_cases hr : s.running = true
+  · simp only [hr, if_true]
+    cases hff : s.flushing with
+    | none => simp [hff] at hf
+    | some f => exact (complete_of_flushing c hff).1
+  · simp only [hr]; simpa using hr
+
+theorem inv2_clear {s : PState} {sp : Spec} (h : Inv2 s sp) (hr : s.running = false) (fl : Bool) :
+    Inv2 { s with flushing := none, errCh := none, failed := fl } sp where
+  mbufEq := h.mbufEq
+  stagesEq := h.stagesEq
+  histEq := h.histEq
+  gens := h.gens
+  active := h.active
+  runFl := by intro hr'; simp only at hr'; rw [hr] at hr'; cases hr'
+  errFl := by intro he; cases he
+
+theorem inv2_cache {s : PState} {sp : Spec} (h : Inv2 s sp) (c : Option Cache) : Inv2 { s with cache := c } sp :=
+  ⟨h.mbufEq, h.stagesEq, h.histEq, h.gens, h.active, h.runFl, h.errFl⟩
+
+theorem inv2_spec_congr {s : PState} {sp sp' : Spec} (h1 : sp'.pending = sp.pending) (h2 : sp'.pendSaved = sp.pendSaved)
+    (h3 : sp'.handed = sp.handed) (h : Inv2 s sp) : Inv2 s sp' :=
+  ⟨by rw [h1]; exact h.mbufEq, by rw [h2]; exact h.stagesEq, by rw [h3]; exact h.histEq, h.gens, h.active, h.runFl, h.errFl⟩
+
+theorem inv2_write {s : PState} {sp : Spec} (k v : Bytes) (h : Inv2 s sp) :
+    Inv2 { s with mbuf := s.mbuf.put k v } { sp with cur := (k, v) :: sp.cur, pending := (k, v) :: sp.pending } :=
+  ⟨by intro k'; simp only; rw [Buf.get_put, Buf.get_cons, h.mbufEq k'], h.stagesEq, h.histEq, h.gens, h.active, h.runFl, h.errFl⟩
+
+theorem doFlush_cases (s : PState) (force : Bool) (mem : Nat) (late : Completion) :
+    doFlush s force mem late = ({ s with cache := none }, .errStaging) ∨
+    (force = false ∧ doFlush s force mem late = ({ s with cache := none }, .notFlushed)) ∨
+    (s.flushing.isSome = true ∧ s.stages = [] ∧
+      doFlush s force mem late = flushAfterWait (await { s with cache := none } late)) ∨
+    (s.flushing = none ∧ s.stages = [] ∧ doFlush s force mem late = start { s with cache := none }) := by
+  unfold doFlush
+  simp only
+  by_cases hst : (!s.stages.isEmpty) = true
+  · left; simp [hst]
+  · have hst' : s.stages = [] := by simpa using hst
+    by_cases hn : (!force && !needFlush s.cfg mem s.mbuf.length s.running) = true
+    · right; left
+      refine ⟨by cases force <;> simp_all, ?_⟩
+      simp only [hst, hn]; simp
+    · by_cases hf : s.flushing.isSome = true
+      · right; right; left; refine ⟨hf, hst', ?_⟩; simp only [hst, hn, hf]; simp
+      · right; right; right; refine ⟨by simpa using hf, hst', ?_⟩; simp only [hst, hn, hf]; simp
+
+theorem doFlushWait_cases (s : PState) (late : Completion) :
+    (s.flushing.isSome = true ∧ doFlushWait s late = waitAfter (await s late)) ∨
+    (s.flushing = none ∧ doFlushWait s late = (s, .ok)) := by
+  unfold doFlushWait
+  by_cases hf : s.flushing.isSome = true
+  · left; exact ⟨hf, by simp [hf]⟩
+  · right; exact ⟨by simpa using hf, by simp [hf]⟩
+
+theorem flushAfterWait_cases (s : PState) :
+    (s.errCh = some .err ∧ flushAfterWait s = failWith s) ∨ (s.errCh ≠ some .err ∧ flushAfterWait s = start s) := by
+  unfold flushAfterWait
+  by_cases he : s.errCh = some .err
+  · left; exact ⟨he, by simp [he]⟩
+  · right; exact ⟨he, by simp [he]⟩
+
+theorem waitAfter_cases (s : PState) :
+    (s.errCh = some .err ∧ waitAfter s = failWith s) ∨
+    (s.errCh ≠ some .err ∧ waitAfter s = ({ s with flushing := none, errCh := none }, .ok)) := by
+  unfold waitAfter
+  by_cases he : s.errCh = some .err
+  · left; exact ⟨he, by simp [he]⟩
+  · right; exact ⟨he, by simp [he]⟩
+
+theorem inv2_doFlush {s : PState} {sp : Spec} (force : Bool) (mem : Nat) (late : Completion) (h : Inv2 s sp) :
+    Inv2 (doFlush s force mem late).1 (specStep sp (.flush force mem late) (doFlush s force mem late).2) := by
+  have h1 := inv2_cache h none
+  rcases doFlush_cases s force mem late with hd | ⟨_, hd⟩ | ⟨hf, _, hd⟩ | ⟨hf, _, hd⟩
+  · rw [hd]; exact h1
+  · rw [hd]; exact h1
+  · rw [hd]
+    have h2 := inv2_await late h1
+    have hnr : (await { s with cache := none } late).running = false := await_not_running late hf
+    rcases flushAfterWait_cases (await { s with cache := none } late) with ⟨_, he⟩ | ⟨_, he⟩
+    · rw [he]; exact inv2_clear h2 hnr true
+    · rw [he]
+      obtain ⟨rpc, ho⟩ := (start_fields (await { s with cache := none } late)).2.2.2.2.2.2.2.2.2.2.2
+      rw [ho]
+      exact inv2_start h2 hnr
+  · rw [hd]
+    have hnr : s.running = false := by
+      cases hr : s.running with
+      | false => rfl
+      | true => have := h.runFl hr; rw [hf] at this; cases this
+    obtain ⟨rpc, ho⟩ := (start_fields { s with cache := none }).2.2.2.2.2.2.2.2.2.2.2
+    rw [ho]
+    exact inv2_start h1 hnr
+
+theorem inv2_doFlushWait {s : PState} {sp : Spec} (late : Completion) (h : Inv2 s sp) :
+    Inv2 (doFlushWait s late).1 sp := by
+  rcases doFlushWait_cases s late with ⟨hf, hd⟩ | ⟨_, hd⟩
+  · rw [hd]
+    have h2 := inv2_await late h
+    have hnr := await_not_running (s := s) late hf
+    rcases waitAfter_cases (await s late) with ⟨_, he⟩ | ⟨_, he⟩
+    · rw [he]; exact inv2_clear h2 hnr true
+    · rw [he]; exact inv2_clear h2 hnr _
+  · rw [hd]; exact h
+
+theorem inv2_step {s : PState} {sp : Spec} (op : Op) (h : Inv2 s sp) :
+    Inv2 (step s op).1 (specStep sp op (step s op).2) := by
+  cases op with
+  | set k v =>
+    simp only [step, specStep]
+    by_cases hv : v.isEmpty = true
+    · simp only [hv, if_true]; exact h
+    · simp only [hv]; exact inv2_write k v h
+  | del k => exact inv2_write k [] h
+  | get k => exact h
+  | batchGet ks => simp only [step, specStep]; rw [batchGet_fields]; exact inv2_cache h _
+  | flush force mem late => exact inv2_doFlush force mem late h
+  | flushDone c =>
+    simp only [step, specStep]
+    by_cases hr : s.running = true
+    · simp only [hr, if_true]; exact inv2_complete c h hr
+    · simp only [hr]; exact h
+  | flushWait late => exact inv2_doFlushWait late h
+  | stage =>
+    simp only [step, specStep]
+    exact ⟨h.mbufEq, ⟨h.mbufEq, h.stagesEq⟩, h.histEq, h.gens, h.active, h.runFl, h.errFl⟩
+  | release =>
+    simp only [step, specStep]
+    exact ⟨h.mbufEq, allRel_tail h.stagesEq, h.histEq, h.gens, h.active, h.runFl, h.errFl⟩
+  | cleanup =>
+    simp only [step, specStep]
+    cases hs : s.stages with
+    | nil =>
+      have hps : sp.pendSaved = [] := by have := h.stagesEq; rw [hs] at this; exact allRel_nil_left this
+      simp only [hps, List.headD_nil, List.tail_nil]
+      exact ⟨h.mbufEq, by rw [hs]; trivial, h.histEq, h.gens, h.active, h.runFl, h.errFl⟩
+    | cons m rest =>
+      cases hps : sp.pendSaved with
+      | nil => have := h.stagesEq; rw [hs, hps] at this; exact this.elim
+      | cons c cs =>
+        have hrel := h.stagesEq; rw [hs, hps] at hrel
+        simp only [List.headD_cons, List.tail_cons]
+        exact ⟨hrel.1, hrel.2, h.histEq, h.gens, h.active, h.runFl, h.errFl⟩
+
+theorem inv2_init (cfg : Cfg) : Inv2 (init cfg) {} where
+  mbufEq k := rfl
+  stagesEq := trivial
+  histEq := trivial
+  gens := rfl
+  active := rfl
+  runFl := by intro h; cases h
+  errFl := by intro h; cases h
+
+theorem inv2_run {s : PState} {sp : Spec} (ops : List Op) (h : Inv2 s sp) :
+    Inv2 (runBoth (s, sp) ops).1 (runBoth (s, sp) ops).2 := by
+  induction ops generalizing s sp with
+  | nil => exact h
+  | cons op ops ih => unfold runBoth stepBoth; exact ih (inv2_step op h)
+
+/-! ## flush errors -/
+
+theorem await_of_not_running {s : PState} (c : Completion) (hr : s.running = false) : await s c = s := by
+  unfold await; simp [hr]
+
+/-- a failure that sits in `errCh` is returned by the next `Flush(true)` (unless it refuses because of an open staging
+    handle) and by the next `FlushWait` -/
+theorem err_reported {s : PState} {sp : Spec} (h : Inv2 s sp) (he : s.errCh = some .err) (mem : Nat) (late : Completion) :
+    ((doFlush s true mem late).2 = .errFlush ∨ (doFlush s true mem late).2 = .errStaging) ∧
+    (doFlushWait s late).2 = .errFlush := by
+  obtain ⟨hfl, hr⟩ := h.errFl (by rw [he]; rfl)
+  constructor
+  · rcases doFlush_cases s true mem late with hd | ⟨hf, _⟩ | ⟨_, _, hd⟩ | ⟨hf, _, _⟩
+    · right; rw [hd]
+    · cases hf
+    · left; rw [hd, await_of_not_running late (by exact hr)]
+      unfold flushAfterWait failWith; simp [he]
+    · rw [hf] at hfl; cases hfl
+  · rcases doFlushWait_cases s late with ⟨_, hd⟩ | ⟨hf, _⟩
+    · rw [hd, await_of_not_running late hr]
+      unfold waitAfter failWith; simp [he]
+    · rw [hf] at hfl; cases hfl
+
+theorem complete_ttl_closed {s : PState} (c : Completion) (h : s.ttl = .closed) : (complete s c).ttl = .closed := by
+  unfold complete
+  split
+  · exact h
+  · simp only
+    split
+    · cases c.res <;> simp [h]
+    · exact h
+
+theorem complete_err_closes {s : PState} {f : Buf} (c : Completion) (hl : s.cfg.layer = true) (ht : s.ttl = .running)
+    (hf : s.flushing = some f) (hc : c.res = .err) : (complete s c).ttl = .closed := by
+  unfold complete; simp [hf, hl, ht, hc]
+
+theorem await_ttl_closed {s : PState} (c : Completion) (h : s.ttl = .closed) : (await s c).ttl = .closed := by
+  unfold await; split
+  · exact complete_ttl_closed c h
+  · exact h
+
+theorem step_cfg (s : PState) (op : Op) : (step s op).1.cfg = s.cfg := by
+  cases op with
+  | set k v => simp only [step]; split <;> rfl
+  | del k => rfl
+  | get k => rfl
+  | batchGet ks => simp only [step]; rw [batchGet_fields]
+  | flush force mem late =>
+    simp only [step]
+    rcases doFlush_cases s force mem late with hd | ⟨_, hd⟩ | ⟨_, _, hd⟩ | ⟨_, _, hd⟩
+    · rw [hd]
+    · rw [hd]
+    · rw [hd]
+      rcases flushAfterWait_cases (await { s with cache := none } late) with ⟨_, he⟩ | ⟨_, he⟩
+      · rw [he]; unfold failWith; simp only; rw [await_cfg]
+      · rw [he, (start_fields _).2.2.2.2.2.2.2.2.2.2.1, await_cfg]
+    · rw [hd, (start_fields _).2.2.2.2.2.2.2.2.2.2.1]
+  | flushDone c => simp only [step]; split <;> simp
+  | flushWait late =>
+    simp only [step]
+    rcases doFlushWait_cases s late with ⟨_, hd⟩ | ⟨_, hd⟩
+    · rw [hd]
+      rcases waitAfter_cases (await s late) with ⟨_, he⟩ | ⟨_, he⟩
+      · rw [he]; unfold failWith; simp only; rw [await_cfg]
+      · rw [he]; simp only; rw [await_cfg]
+    · rw [hd]
+  | stage => rfl
+  | release => rfl
+  | cleanup => simp only [step]; split <;> rfl
+
+theorem step_ttl_closed (s : PState) (op : Op) (h : s.ttl = .closed) : (step s op).1.ttl = .closed := by
+  cases op with
+  | set k v => simp only [step]; split <;> exact h
+  | del k => exact h
+  | get k => exact h
+  | batchGet ks => simp only [step]; rw [batchGet_fields]; exact h
+  | flush force mem late =>
+    simp only [step]
+    rcases doFlush_cases s force mem late with hd | ⟨_, hd⟩ | ⟨_, _, hd⟩ | ⟨_, _, hd⟩
+    · rw [hd]; exact h
+    · rw [hd]; exact h
+    · rw [hd]
+      have h2 : (await { s with cache := none } late).ttl = .closed := await_ttl_closed late h
+      rcases flushAfterWait_cases (await { s with cache := none } late) with ⟨_, he⟩ | ⟨_, he⟩
+      · rw [he]; exact h2
+      · rw [he, (start_cases _).1]; exact h2
+    · rw [hd, (start_cases _).1]; exact h
+  | flushDone c => simp only [step]; split
+                   · exact complete_ttl_closed c h
+                   · exact h
+  | flushWait late =>
+    simp only [step]
+    have h2 : (await s late).ttl = .closed := await_ttl_closed late h
+    rcases doFlushWait_cases s late with ⟨_, hd⟩ | ⟨_, hd⟩
+    · rw [hd]
+      rcases waitAfter_cases (await s late) with ⟨_, he⟩ | ⟨_, he⟩
+      · rw [he]; exact h2
+      · rw [he]; exact h2
+    · rw [hd]; exact h
+  | stage => exact h
+  | release => exact h
+  | cleanup => simp only [step]; split <;> exact h
+
+theorem run_cfg (s : PState) (ops : List Op) : (run s ops).cfg = s.cfg := by
+  induction ops generalizing s with
+  | nil => rfl
+  | cons op ops ih => unfold run; rw [ih, step_cfg]
+
+theorem run_ttl_closed (s : PState) (ops : List Op) (h : s.ttl = .closed) : (run s ops).ttl = .closed := by
+  induction ops generalizing s with
+  | nil => exact h
+  | cons op ops ih => unfold run; exact ih _ (step_ttl_closed s op h)
+
+theorem commitOk_iff (s : PState) (mem : Nat) (l1 l2 : Completion) :
+    commitOk s mem l1 l2 = true ↔
+      (∃ g b r, (doFlush s true mem l1).2 = .flushed g b r) ∧ (doFlushWait (doFlush s true mem l1).1 l2).2 = .ok := by
+  unfold commitOk commitOuts
+  cases h : (doFlush s true mem l1).2 with
+  | flushed g b r => cases h2 : (doFlushWait (doFlush s true mem l1).1 l2).2 <;> simp [h, h2]
+  | _ => simp [h]
+
+/-- the callback refuses every flush once the TTL manager is closed: the flush started by commit fails at once and
+    `FlushWait` returns its error -/
+theorem start_closed_then_wait {s : PState} (hl : s.cfg.layer = true) (ht : s.ttl = .closed) (late : Completion) :
+    (doFlushWait (start s).1 late).2 = .errFlush := by
+  obtain ⟨hr, he⟩ := (start_cases s).2.2 hl ht
+  have hf := (start_fields s).1
+  rcases doFlushWait_cases (start s).1 late with ⟨_, hd⟩ | ⟨hn, _⟩
+  · rw [hd, await_of_not_running late hr]
+    unfold waitAfter failWith; simp [he]
+  · rw [hf] at hn; cases hn
+
+theorem commit_fails_closed {s : PState} (hl : s.cfg.layer = true) (ht : s.ttl = .closed) (mem : Nat)
+    (l1 l2 : Completion) : commitOk s mem l1 l2 = false := by
+  cases hc : commitOk s mem l1 l2 with
+  | false => rfl
+  | true =>
+    obtain ⟨⟨g, b, r, ho⟩, hw⟩ := (commitOk_iff s mem l1 l2).mp hc
+    rcases doFlush_cases s true mem l1 with hd | ⟨hf, _⟩ | ⟨_, _, hd⟩ | ⟨_, _, hd⟩
+    · rw [hd] at ho; cases ho
+    · cases hf
+    · rcases flushAfterWait_cases (await { s with cache := none } l1) with ⟨_, he⟩ | ⟨_, he⟩
+      · rw [hd, he] at ho; unfold failWith at ho; cases ho
+      · rw [hd, he] at hw
+        have := start_closed_then_wait (s := await { s with cache := none } l1) (by rw [await_cfg]; exact hl)
+          (await_ttl_closed l1 ht) l2
+        rw [this] at hw
+        cases hw
+    · rw [hd] at hw
+      have := start_closed_then_wait (s := { s with cache := none }) hl ht l2
+      rw [this] at hw
+      cases hw
+
+/-! ## the byte-string order -/
+
+theorem cmp_cons (a b : UInt8) (as bs : Bytes) :
+    Bytes.cmp (a :: as) (b :: bs) = if a < b then .lt else if b < a then .gt else Bytes.cmp as bs := rfl
+
+theorem cmp_refl : ∀ a : Bytes, Bytes.cmp a a = .eq
+  | [] => rfl
+  | a :: as => by rw [cmp_cons]; simp [UInt8.lt_irrefl, cmp_refl as]
+
+theorem cmp_eq_iff : ∀ {a b : Bytes}, Bytes.cmp a b = .eq ↔ a = b
+  | [], [] => by simp [Bytes.cmp]
+  | [], _ :: _ => by simp [Bytes.cmp]
+  | _ :: _, [] => by simp [Bytes.cmp]
+  | a :: as, b :: bs => by
+    rw [cmp_cons]
+    by_cases h1 : a < b
+    · simp only [h1, if_true]
+      constructor
+      · intro h; cases h
+      · intro h; injection h with h2 _; subst h2; exact absurd h1 (UInt8.lt_irrefl a)
+    · by_cases h2 : b < a
+      · simp only [h1, h2, if_true, if_false]
+        constructor
+        · intro h; cases h
+        · intro h; injection h with h3 _; subst h3; exact absurd h2 (UInt8.lt_irrefl a)
+      · simp only [h1, h2, if_false]
+        have hab : a = b := UInt8.le_antisymm (UInt8.not_lt.mp h2) (UInt8.not_lt.mp h1)
+        rw [cmp_eq_iff (a := as) (b := bs)]
+        constructor
+        · intro h; rw [hab, h]
+        · intro h; injection h
+
+theorem cmp_lt_gt : ∀ {a b : Bytes}, Bytes.cmp a b = .lt ↔ Bytes.cmp b a = .gt
+  | [], [] => by simp [Bytes.cmp]
+  | [], _ :: _ => by simp [Bytes.cmp]
+  | _ :: _, [] => by simp [Bytes.cmp]
+  | a :: as, b :: bs => by
+    rw [cmp_cons, cmp_cons]
+    by_cases h1 : a < b
+    · have h2 : ¬ b < a := UInt8.lt_asymm h1
+      simp [h1, h2]
+    · by_cases h2 : b < a
+      · simp [h1, h2]
+      · simp only [h1, h2, if_false]; exact cmp_lt_gt
+
+theorem lt_trans' : ∀ {a b c : Bytes}, Bytes.cmp a b = .lt → Bytes.cmp b c = .lt → Bytes.cmp a c = .lt
+  | [], [], _, h, _ => by simp [Bytes.cmp] at h
+  | [], _ :: _, [], _, h => by simp [Bytes.cmp] at h
+  | [], _ :: _, _ :: _, _, _ => by simp [Bytes.cmp]
+  | _ :: _, [], _, h, _ => by simp [Bytes.cmp] at h
+  | _ :: _, _ :: _, [], _, h => by simp [Bytes.cmp] at h
+  | a :: as, b :: bs, c :: cs, h1, h2 => by
+    rw [cmp_cons] at h1 h2 ⊢
+    by_cases hab : a < b
+    · by_cases hbc : b < c
+      · simp [UInt8.lt_trans hab hbc]
+      · by_cases hcb : c < b
+        · simp [hbc, hcb] at h2
+        · have : b = c := UInt8.le_antisymm (UInt8.not_lt.mp hcb) (UInt8.not_lt.mp hbc)
+          subst this; simp [hab]
+    · by_cases hba : b < a
+      · simp [hab, hba] at h1
+      · have : a = b := UInt8.le_antisymm (UInt8.not_lt.mp hba) (UInt8.not_lt.mp hab)
+        subst this
+        simp only [hab, hba, if_false] at h1
+        by_cases hac : a < c
+        · simp [hac]
+        · by_cases hca : c < a
+          · simp [hac, hca] at h2
+          · simp only [hac, hca, if_false] at h2 ⊢
+            exact lt_trans' h1 h2
+
+theorem lt_irrefl' (a : Bytes) : Bytes.lt a a = false := by unfold Bytes.lt; rw [cmp_refl]; rfl
+
+theorem le_refl' (a : Bytes) : Bytes.le a a = true := by unfold Bytes.le; rw [cmp_refl]; rfl
+
+theorem le_iff {a b : Bytes} : Bytes.le a b = true ↔ Bytes.lt a b = true ∨ a = b := by
+  unfold Bytes.le Bytes.lt
+  cases h : Bytes.cmp a b with
+  | lt => simp
+  | eq => simp [cmp_eq_iff.mp h]
+  | gt =>
+    simp only [bne_self_eq_false, Bool.false_eq_true, false_iff]
+    intro h2
+    rcases h2 with h2 | h2
+    · simp at h2
+    · rw [h2, cmp_refl] at h; cases h
+
+theorem lt_trans'' {a b c : Bytes} (h1 : Bytes.lt a b = true) (h2 : Bytes.lt b c = true) : Bytes.lt a c = true := by
+  unfold Bytes.lt at *
+  have h1' : Bytes.cmp a b = .lt := by cases h : Bytes.cmp a b <;> simp [h] at h1 ⊢
+  have h2' : Bytes.cmp b c = .lt := by cases h : Bytes.cmp b c <;> simp [h] at h2 ⊢
+  rw [lt_trans' h1' h2']; rfl
+
+theorem le_trans' {a b c : Bytes} (h1 : Bytes.le a b = true) (h2 : Bytes.le b c = true) : Bytes.le a c = true := by
+  rcases le_iff.mp h1 with h1 | h1
+  · rcases le_iff.mp h2 with h2 | h2
+    · exact le_iff.mpr (Or.inl (lt_trans'' h1 h2))
+    · subst h2; exact le_iff.mpr (Or.inl h1)
+  · subst h1; exact h2
+
+theorem lt_le_trans {a b c : Bytes} (h1 : Bytes.lt a b = true) (h2 : Bytes.le b c = true) : Bytes.lt a c = true := by
+  rcases le_iff.mp h2 with h2 | h2
+  · exact lt_trans'' h1 h2
+  · subst h2; exact h1
+
+theorem le_lt_trans {a b c : Bytes} (h1 : Bytes.le a b = true) (h2 : Bytes.lt b c = true) : Bytes.lt a c = true := by
+  rcases le_iff.mp h1 with h1 | h1
+  · exact lt_trans'' h1 h2
+  · subst h1; exact h2
+
+/-- totality -/
+theorem le_of_not_lt {a b : Bytes} (h : Bytes.lt a b = false) : Bytes.le b a = true := by
+  unfold Bytes.lt at h; unfold Bytes.le
+  cases h2 : Bytes.cmp b a with
+  | lt => rfl
+  | eq => rfl
+  | gt => rw [cmp_lt_gt.mpr h2] at h; simp at h
+
+theorem not_lt_of_le {a b : Bytes} (h : Bytes.le a b = true) : Bytes.lt b a = false := by
+  cases h2 : Bytes.lt b a with
+  | false => rfl
+  | true =>
+    have := le_lt_trans h h2
+    rw [lt_irrefl'] at this; cases this
+
+theorem nil_le (a : Bytes) : Bytes.le [] a = true := by cases a <;> rfl
+
+/-! ## the range bounds -/
+
+theorem minKey_spec : ∀ (ks : List Bytes) (m : Bytes),
+    Bytes.le (minKey ks m) m = true ∧ (∀ k ∈ ks, Bytes.le (minKey ks m) k = true) ∧ (minKey ks m = m ∨ minKey ks m ∈ ks)
+  | [], m => ⟨le_refl' m, by simp, Or.inl rfl⟩
+  | k :: ks, m => by
+    unfold minKey
+    by_cases h : Bytes.lt k m = true
+    · simp only [h, if_true]
+      obtain ⟨h1, h2, h3⟩ := minKey_spec ks k
+      refine ⟨le_trans' h1 (le_iff.mpr (Or.inl h)), ?_, ?_⟩
+      · intro k' hk'
+        rcases List.mem_cons.mp hk' with h4 | h4
+        · rw [h4]; exact h1
+        · exact h2 k' h4
+      · right; rcases h3 with h3 | h3
+        · rw [h3]; simp
+        · exact List.mem_cons_of_mem _ h3
+    · simp only [h]
+      have h' : Bytes.lt k m = false := by simpa using h
+      obtain ⟨h1, h2, h3⟩ := minKey_spec ks m
+      refine ⟨h1, ?_, ?_⟩
+      · intro k' hk'
+        rcases List.mem_cons.mp hk' with h4 | h4
+        · rw [h4]; exact le_trans' h1 (le_of_not_lt h')
+        · exact h2 k' h4
+      · rcases h3 with h3 | h3
+        · left; exact h3
+        · right; exact List.mem_cons_of_mem _ h3
+
+theorem maxKey_spec : ∀ (ks : List Bytes) (m : Bytes),
+    Bytes.le m (maxKey ks m) = true ∧ (∀ k ∈ ks, Bytes.le k (maxKey ks m) = true) ∧ (maxKey ks m = m ∨ maxKey ks m ∈ ks)
+  | [], m => ⟨le_refl' m, by simp, Or.inl rfl⟩
+  | k :: ks, m => by
+    unfold maxKey
+    by_cases h : Bytes.lt m k = true
+    · simp only [h, if_true]
+      obtain ⟨h1, h2, h3⟩ := maxKey_spec ks k
+      refine ⟨le_trans' (le_iff.mpr (Or.inl h)) h1, ?_, ?_⟩
+      · intro k' hk'
+        rcases List.mem_cons.mp hk' with h4 | h4
+        · rw [h4]; exact h1
+        · exact h2 k' h4
+      · right; rcases h3 with h3 | h3
+        · rw [h3]; simp
+        · exact List.mem_cons_of_mem _ h3
+    · simp only [h]
+      have h' : Bytes.lt m k = false := by simpa using h
+      obtain ⟨h1, h2, h3⟩ := maxKey_spec ks m
+      refine ⟨h1, ?_, ?_⟩
+      · intro k' hk'
+        rcases List.mem_cons.mp hk' with h4 | h4
+        · rw [h4]; exact le_trans' (le_of_not_lt h') h1
+        · exact h2 k' h4
+      · rcases h3 with h3 | h3
+        · left; exact h3
+        · right; exact List.mem_cons_of_mem _ h3
+
+theorem le_antisymm' {a b : Bytes} (h1 : Bytes.le a b = true) (h2 : Bytes.le b a = true) : a = b := by
+  rcases le_iff.mp h1 with h | h
+  · have := lt_le_trans h h2; rw [lt_irrefl'] at this; cases this
+  · exact h
+
+/-- the bounds describe the key set `K` seen so far -/
+def boundsInv (K : List Bytes) (p : Bytes × Bytes) : Prop :=
+  (K = [] ∧ p = ([], [])) ∨
+  (p.1 ∈ K ∧ p.2 ∈ K ∧ ∀ k ∈ K, Bytes.le p.1 k = true ∧ Bytes.le k p.2 = true)
+
+theorem headD_mem {b : List Bytes} (h : b ≠ []) : b.headD [] ∈ b := by
+  cases b with
+  | nil => exact absurd rfl h
+  | cons x xs => simp
+
+theorem updBounds_inv {K : List Bytes} {p : Bytes × Bytes} (hK : ∀ k ∈ K, k ≠ []) (h : boundsInv K p)
+    {b : List Bytes} (hb : b ≠ []) : boundsInv (K ++ b) (updBounds p b) := by
+  obtain ⟨lo1, lo2, lo3⟩ := minKey_spec b (b.headD [])
+  obtain ⟨hi1, hi2, hi3⟩ := maxKey_spec b (b.headD [])
+  have hlo : minKey b (b.headD []) ∈ b := by
+    rcases lo3 with h3 | h3
+    · rw [h3]; exact headD_mem hb
+    · exact h3
+  have hhi : maxKey b (b.headD []) ∈ b := by
+    rcases hi3 with h3 | h3
+    · rw [h3]; exact headD_mem hb
+    · exact h3
+  right
+  unfold updBounds
+  simp only
+  rcases h with ⟨hK0, hp⟩ | ⟨h1, h2, h3⟩
+  · subst hK0; rw [hp]
+    simp only [List.isEmpty_nil, Bool.true_or, if_true, List.nil_append]
+    exact ⟨hlo, hhi, fun k hk => ⟨lo2 k hk, hi2 k hk⟩⟩
+  · have e1 : p.1.isEmpty = false := by
+      cases hp1 : p.1 with
+      | nil => exact absurd hp1 (hK _ h1)
+      | cons _ _ => rfl
+    have e2 : p.2.isEmpty = false := by
+      cases hp2 : p.2 with
+      | nil => exact absurd hp2 (hK _ h2)
+      | cons _ _ => rfl
+    simp only [e1, e2, Bool.false_or]
+    refine ⟨?_, ?_, ?_⟩
+    · by_cases hl : Bytes.lt (minKey b (b.headD [])) p.1 = true
+      · simp only [hl, if_true]; exact List.mem_append_right _ hlo
+      · simp only [hl]; exact List.mem_append_left _ h1
+    · by_cases hl : Bytes.lt p.2 (maxKey b (b.headD [])) = true
+      · simp only [hl, if_true]; exact List.mem_append_right _ hhi
+      · simp only [hl]; exact List.mem_append_left _ h2
+    · intro k hk
+      constructor
+      · by_cases hl : Bytes.lt (minKey b (b.headD [])) p.1 = true
+        · simp only [hl, if_true]
+          rcases List.mem_append.mp hk with hk | hk
+          · exact le_trans' (le_iff.mpr (Or.inl hl)) (h3 k hk).1
+          · exact lo2 k hk
+        · simp only [hl]
+          rcases List.mem_append.mp hk with hk | hk
+          · exact (h3 k hk).1
+          · exact le_trans' (le_of_not_lt (by simpa using hl)) (lo2 k hk)
+      · by_cases hl : Bytes.lt p.2 (maxKey b (b.headD [])) = true
+        · simp only [hl, if_true]
+          rcases List.mem_append.mp hk with hk | hk
+          · exact le_trans' (h3 k hk).2 (le_iff.mpr (Or.inl hl))
+          · exact hi2 k hk
+        · simp only [hl]
+          rcases List.mem_append.mp hk with hk | hk
+          · exact (h3 k hk).2
+          · exact le_trans' (hi2 k hk) (le_of_not_lt (by simpa using hl))
+
+theorem foldl_updBounds_inv : ∀ (bs : List (List Bytes)) (K : List Bytes) (p : Bytes × Bytes),
+    (∀ k ∈ K, k ≠ []) → boundsInv K p → validBatches bs → boundsInv (K ++ bs.flatten) (bs.foldl updBounds p)
+  | [], K, p, _, h, _ => by simpa using h
+  | b :: bs, K, p, hK, h, hv => by
+    have hb := hv b (by simp)
+    have h1 := updBounds_inv hK h hb.1
+    have hK' : ∀ k ∈ K ++ b, k ≠ [] := by
+      intro k hk
+      rcases List.mem_append.mp hk with hk | hk
+      · exact hK k hk
+      · exact hb.2 k hk
+    have := foldl_updBounds_inv bs (K ++ b) (updBounds p b) hK' h1 (fun b' hb' => hv b' (List.mem_cons_of_mem _ hb'))
+    simpa [List.flatten_cons, List.append_assoc] using this
+
+/-- what the flush callback leaves in pipelinedStart / pipelinedEnd: the least and the greatest flushed key -/
+theorem boundsOf_spec {bs : List (List Bytes)} (hv : validBatches bs) (hne : bs ≠ []) :
+    (boundsOf bs).1 ∈ bs.flatten ∧ (boundsOf bs).2 ∈ bs.flatten ∧
+    ∀ k ∈ bs.flatten, Bytes.le (boundsOf bs).1 k = true ∧ Bytes.le k (boundsOf bs).2 = true := by
+  have := foldl_updBounds_inv bs [] ([], []) (by simp) (Or.inl ⟨rfl, rfl⟩) hv
+  simp only [List.nil_append] at this
+  rcases this with ⟨h0, _⟩ | h
+  · cases bs with
+    | nil => exact absurd rfl hne
+    | cons b bs =>
+      have hb := (hv b (by simp)).1
+      simp only [List.flatten_cons, List.append_eq_nil_iff] at h0
+      exact absurd h0.1 hb
+  · exact h
+
+/-! ## the regions a range task visits -/
+
+theorem covered_cons (r : Region) (rs : List Region) (k : Bytes) : covered (r :: rs) k = (r.has k || covered rs k) := by
+  unfold covered; simp [List.any_cons]
+
+theorem tasks_cover : ∀ (splits : List Bytes) (lo key end_ k : Bytes),
+    Bytes.le lo key = true → Bytes.le key k = true → Bytes.le k end_ = true →
+    (Bytes.lt k end_ = true ∨ end_ ∉ splits) → covered (tasks key end_ lo splits) k = true
+  | [], lo, key, end_, k, h1, h2, _, _ => by
+    unfold tasks
+    rw [covered_cons]
+    simp [Region.has, le_trans' h1 h2]
+  | hi :: rest, lo, key, end_, k, h1, h2, h3, h4 => by
+    unfold tasks
+    by_cases hk : Bytes.lt key hi = true
+    · simp only [hk, if_true]
+      rw [covered_cons]
+      by_cases hkh : Bytes.lt k hi = true
+      · simp [Region.has, le_trans' h1 h2, hkh]
+      · have hkh' : Bytes.lt k hi = false := by simpa using hkh
+        have hle : Bytes.le hi k = true := le_of_not_lt hkh'
+        have hne : Bytes.le end_ hi = false := by
+          cases he : Bytes.le end_ hi with
+          | false => rfl
+          | true =>
+            have e1 : end_ = k := le_antisymm' (le_trans' he hle) h3
+            have e2 : hi = k := le_antisymm' hle (by rw [← e1]; exact he)
+            rcases h4 with h4 | h4
+            · rw [e1, lt_irrefl'] at h4; cases h4
+            · exact absurd (by rw [e1, e2]; simp) h4
+        simp only [hne, Bool.false_eq_true, if_false]
+        have h4' : Bytes.lt k end_ = true ∨ end_ ∉ rest := by
+          rcases h4 with h4 | h4
+          · exact Or.inl h4
+          · exact Or.inr (fun hm => h4 (List.mem_cons_of_mem _ hm))
+        rw [tasks_cover rest hi hi end_ k (le_refl' hi) hle h3 h4']
+        simp
+    · simp only [hk]
+      have hk' : Bytes.lt key hi = false := by simpa using hk
+      have h4' : Bytes.lt k end_ = true ∨ end_ ∉ rest := by
+        rcases h4 with h4 | h4
+        · exact Or.inl h4
+        · exact Or.inr (fun hm => h4 (List.mem_cons_of_mem _ hm))
+      exact tasks_cover rest hi key end_ k (le_of_not_lt hk') h2 h3 h4'
+
+def decRunOk : (s : PState) → (ops : List Op) → Decidable (RunOk s ops)
+  | _, [] => isTrue trivial
+  | s, op :: ops =>
+    have := decRunOk (step s op).1 ops
+    inferInstanceAs (Decidable (okOp s op = true ∧ RunOk (step s op).1 ops))
+
+instance (s : PState) (ops : List Op) : Decidable (RunOk s ops) := decRunOk s ops
+
 end CGV.Pipelined
